@@ -22,11 +22,12 @@ JudgeEnv == EmptyEnv
 Verdict(ev, i) ==
   IF ~Supported(ev.q) THEN PrintT(<<"UNSUPPORTED", i>>)
   ELSE
-    LET qa == ParseQueryText(ev.q) IN
+    \* bound through a singleton set so that the parse and the value are computed once
+    \E qa \in {ParseQueryText(ev.q)} :
     /\ IF ev.ast.k # "none" /\ ~(ev.ast.k = qa.k /\ (qa.k = "expr" => AstEq(qa.e, ev.ast.e)))
        THEN PrintT(<<"ASTDIFF", i>>) ELSE TRUE
     /\ IF qa.k # "expr" THEN PrintT(<<"SILENT", i>>)
-       ELSE LET val == Ev(qa.e, JudgeEnv) IN
+       ELSE \E val \in {Ev(qa.e, JudgeEnv)} :
             IF Silent(val) THEN PrintT(<<"SILENT", i>>)
             ELSE IF ev.obs.t = "crash" THEN PrintT(<<"CRASH", i>>)
             ELSE IF Agree(val, ev.obs) THEN TRUE
